@@ -1,4 +1,5 @@
 import Storrent.Util
+import Storrent.Model.Http
 /-
 C14 — executable model of the web-seed data path (core-only, links into model-c14):
 
@@ -414,6 +415,54 @@ def parseContentRange (cr : List Char) : Option (Int × Int × Int) :=
       match scanForm3 cr with
       | some fl => some (-1, -1, fl)
       | none => none
+
+/-! ## buildUrl (webseed/getright.go, repaired: every component escaped on its own) -/
+
+def slash : UInt8 := 47
+
+def endsWithSlash (u : Bytes) : Bool := u.getLast? = some slash
+
+/-- `strings.Join(escaped, "/")` -/
+def joinSlash : List Bytes → Bytes
+  | [] => []
+  | [c] => c
+  | c :: r => c ++ [slash] ++ joinSlash r
+
+/-- `file = none` is `file == nil` (single-file torrent) -/
+def buildUrl (url name : Bytes) (file : Option (List Bytes)) : Bytes :=
+  match file with
+  | none => if !endsWithSlash url then url else url ++ Http.pathEscape name
+  | some comps =>
+    let u1 := if !endsWithSlash url then url ++ [slash] else url
+    let u2 := u1 ++ Http.pathEscape name
+    let u3 := if !endsWithSlash u2 then u2 ++ [slash] else u2
+    u3 ++ joinSlash (comps.map Http.pathEscape)
+
+/-- split at every '/' -/
+def splitSlash : Bytes → List Bytes
+  | [] => [[]]
+  | c :: r =>
+    match splitSlash r with
+    | [] => [[c]]            -- unreachable: splitSlash is never empty
+    | h :: t => if c = slash then [] :: h :: t else (c :: h) :: t
+
+def unhexDigit (c : UInt8) : Option Nat :=
+  if 48 ≤ c ∧ c ≤ 57 then some (c.toNat - 48)
+  else if 65 ≤ c ∧ c ≤ 70 then some (c.toNat - 55)
+  else if 97 ≤ c ∧ c ≤ 102 then some (c.toNat - 87)
+  else none
+
+/-- percent-decoding (url.PathUnescape); `none` on a malformed escape -/
+def unescape : Bytes → Option Bytes
+  | [] => some []
+  | [c] => if c = 37 then none else some [c]
+  | [c, d] => if c = 37 then none else (unescape [d]).map (c :: ·)
+  | c :: a :: b :: r =>
+    if c = 37 then
+      match unhexDigit a, unhexDigit b, unescape r with
+      | some x, some y, some t => some (UInt8.ofNat (x * 16 + y) :: t)
+      | _, _, _ => none
+    else (unescape (a :: b :: r)).map (c :: ·)
 
 /-! ## GetRight.Get / Hoffman.Get response validation -/
 
